@@ -15,6 +15,10 @@ func StringToNote(note string) (byte, error) {
 		return 0, fmt.Errorf("unsupported format, bruh")
 	}
 
+	if match[2] == "-0" {
+		return 0, fmt.Errorf("there is no octave \"-0\"") // the octaves are -2, -1, 0, 1 ... 8
+	}
+
 	pitch := strings.ToUpper(match[1])
 	octave, err := strconv.Atoi(match[2])
 	if err != nil {
